@@ -19,7 +19,7 @@ type Reply struct {
 	S    string
 	I    int64
 	A    []Reply
-	Null bool // RESP2 null array / null bulk flavour hint
+	Null bool   // RESP2 null array / null bulk flavour hint
 	Raw  string // if not empty: these bytes are sent as they are (e.g. a RESP3 streamed string)
 }
 
